@@ -67,6 +67,9 @@ func genCase(t *rapid.T, http bool) Case {
 		r.V1 = pct(t, "rv1", 10)
 		r.NoKU = pct(t, "rnoku", 25)
 		r.UTF8 = pct(t, "rutf8", 25)
+		if pct(t, "rserial", 30) {
+			r.Serial = 1 + uni(t, "rserialv", 0, 1)
+		}
 		if pct(t, "rpathlen", 20) {
 			r.PathLen = 1 + uni(t, "rpathlenv", 0, 1)
 		}
@@ -108,6 +111,12 @@ func genCase(t *rapid.T, http bool) Case {
 			s.EKU = pickFrom(t, "cekuv", []string{"ClientAuth", "CodeSigning", "ServerAuth", "OCSPSigning"})
 		}
 		s.CritUnknown = pct(t, "ccrit", 10)
+		if pct(t, "cserial", 30) {
+			s.Serial = 1 + uni(t, "cserialv", 0, 1)
+		}
+		if pct(t, "cvalidity", 15) {
+			s.Validity = 1 + uni(t, "cvalidityv", 0, 1)
+		}
 		if s.Role != "nonca" && pct(t, "coldself", 35) {
 			s.OldSelf = true
 			s.OldSelfTrusted = s.Role != "pre" && pct(t, "coldselftrusted", 10)
@@ -172,6 +181,9 @@ func genCase(t *rapid.T, http bool) Case {
 	if !http {
 		l.NotAfter = uni64(t, "lnotafter", -2*year, 30*year)
 	}
+	if pct(t, "lserial", 30) {
+		l.Serial = 1 + uni(t, "lserialv", 0, 1)
+	}
 	l.AKI = rapid.Bool().Draw(t, "laki")
 	l.BadAKI = l.AKI && pct(t, "lbadaki", 25)
 	l.SigAlg = uni(t, "lalg", 0, 2)
@@ -234,6 +246,15 @@ func genCase(t *rapid.T, http bool) Case {
 		} else {
 			l.NotAfter = uni64(t, "lnotafter", 10*year, 30*year)
 		}
+	}
+	// NotBefore is independent of NotAfter (the filters are about NotAfter only): incl. inverted periods
+	// with NotBefore after NotAfter and after "now"
+	if pct(t, "lnboff", 25) {
+		l.NBOff = pickFrom(t, "lnboffv", []int64{-year, -1, 1, year, 40 * year, 2, 3600})
+	}
+	if http && pct(t, "lbulk", 3) {
+		// request bodies of about 60 KiB .. 1 MiB (base64 of the DER)
+		l.Bulk = pickFrom(t, "lbulkv", []int{45000, 50000, 100000, 300000, 750000})
 	}
 	if !http {
 		o.Now = pickFrom(t, "now", []int64{-year * 1e9, -1e9, -1, 0, 1, 1e9, year * 1e9})
